@@ -56,7 +56,8 @@ def main():
                 ls = [l for l in out.split('\n') if l.startswith('VIOLATION') or 'verdicts=' in l]
                 lines += ls
                 if rc == 1 and any(l.startswith('VIOLATION') for l in ls):
-                    status = 'caught' if pr == prop else 'caught by ' + pr
+                    if status != 'caught':      # its own property's check wins the label
+                        status = 'caught' if pr == prop else 'caught by ' + pr
             if status == 'MISSED' and meta.get('not_pursued'):
                 status = 'caught? no - recorded as not pursued (see meta.json)'
             rows.append((sid, prop, status, 'demo clean/patched rc=%d/%d; %s' % (rc_c, rc_p, ' || '.join(lines)[-260:])))
